@@ -5,6 +5,7 @@ CONSTANTS MaxDepth = 3
   TailKeepsSets = TRUE
   SplitContinues = TRUE
   SkipEmpty = TRUE
+  SkipGetters = TRUE
   SplitCachesExport = FALSE
   SrcFRepass = FALSE
   MFRunCopies = TRUE
